@@ -62,12 +62,29 @@ fn check_mono(base: &[&str], x: &str, pos: usize, reqs: &[Req], l: &mut Local) {
     let mut e0 = build_engine(base, &[], false, true);
     let mut e1 = build_engine(&with, &[], false, true);
     l.states += 2;
+    // a third subject for lists without `$badfilter` whose extra rule comes last: a blocker that
+    // receives the rules one by one (`Blocker::add_filter` files a rule by its own dispatch)
+    let mut inc: Option<(adblock::blocker::Blocker, adblock::resources::ResourceStorage)> = None;
+    if pos == base.len() && !r1.iter().any(|r| r.f.is_badfilter()) {
+        inc = vh::util::catch(|| {
+            let mut b = adblock::blocker::Blocker::new(vec![], &adblock::blocker::BlockerOptions { enable_optimizations: false });
+            for r in &r1 {
+                let _ = b.add_filter((*r.f).clone());
+            }
+            (b, adblock::resources::ResourceStorage::from_resources(vh::net::std_resources()))
+        })
+        .ok();
+        l.states += 1;
+    }
     let store = ns::std_res_spec();
     let tags_present = alpha::tags_in(&with);
     for tagset in subsets_of(&tags_present) {
         let tagrefs: Vec<&str> = tagset.iter().map(|s| s.as_str()).collect();
         e0.use_tags(&tagrefs);
         e1.use_tags(&tagrefs);
+        if let Some((b, _)) = inc.as_mut() {
+            b.use_tags(&tagrefs);
+        }
         let tags: HashSet<String> = tagset.iter().cloned().collect();
         let a0 = ns::active_rules_by_text(&r0, &tags);
         let a1 = ns::active_rules_by_text(&r1, &tags);
@@ -114,6 +131,19 @@ fn check_mono(base: &[&str], x: &str, pos: usize, reqs: &[Req], l: &mut Local) {
                     "c04.mono.blocking-added-allows".into(),
                     format!("adding blocking rule {:?} at {} to {:?} turned ({}, {}, {}) from blocked into allowed", x, pos, base, rq.url, rq.source, rq.ty),
                 ));
+            }
+            // the rule-by-rule blocker must block exactly what the reference says for the extended list
+            if let Some((b, res)) = inc.as_ref() {
+                let s = ns::spec_check_active(&a1, &rq.req, &rq.url, &store);
+                l.compared += 1;
+                l.transitions += 1;
+                let got = vh::util::catch(|| b.check(&rq.req, res).matched);
+                if !got.as_ref().map(|g| s.verdict.matched.accepts(g)).unwrap_or(false) {
+                    l.mismatch(mk(
+                        format!("c04.spec.rules-added-one-by-one.{}", match got { Ok(true) => "spurious-block", Ok(false) => "lost-block", Err(_) => "panic" }),
+                        format!("extended list added with Blocker::add_filter: blocked={:?} but reference {:?} (matching {:?}) for ({}, {}, {})", got, s.verdict.matched, s.matching, rq.url, rq.source, rq.ty),
+                    ));
+                }
             }
             // (a) blocked == spec, for both lists
             for (which, act, b) in [("base", &a0, b0), ("extended", &a1, b1)] {
